@@ -110,4 +110,103 @@ theorem shift_refines (op : BinOp) (hop : op = .shl ∨ op = .shr) (x y : Lit) (
         simp only [inUint64, Bool.and_eq_false_iff, decide_eq_false_iff_not]
         omega
       cases cToInt x.val <;> simp [hin, hr, maxShiftCount]
+def BinOp.isArith : BinOp → Bool
+  | .add | .sub | .mul | .quo | .rem | .and | .or | .xor | .andNot => true
+  | _ => false
+
+theorem arith_refines (op : BinOp) (hop : BinOp.isArith op = true) (x y : Lit) (hx : x.wf = true) (hy : y.wf = true) :
+    (binaryExprUntyped op x y).map abs = binop op (abs x) (abs y) := by
+  rcases Lit.wf_cases hx with ⟨b, rfl⟩ | ⟨s, rfl⟩ | ⟨n, rfl⟩ | ⟨n, rfl⟩ | ⟨q, rfl⟩ | ⟨a, b, rfl⟩ <;>
+  rcases Lit.wf_cases hy with ⟨b', rfl⟩ | ⟨s', rfl⟩ | ⟨n', rfl⟩ | ⟨n', rfl⟩ | ⟨q', rfl⟩ | ⟨a', b', rfl⟩ <;>
+  cases op <;> simp [BinOp.isArith] at hop <;>
+  simp [binaryExprUntyped, binop, arith, abs, untypedClass, cBinaryOp, cmatch, nkind, isIntKind, makeKind, resultKind,
+    NKind.max, NKind.rank, NKind.isInt, intArith, realArith, cxArith, Cx.ofInt, Cx.ofRat, Cx.add, Cx.sub, Cx.mul, Cx.normSq] <;>
+  (try (split <;> (try simp_all [abs, nkind, Cx.ofInt, Cx.ofRat, cx_div_formula, resultKind, makeKind, isIntKind])))
+
+theorem binop_cases (op : BinOp) :
+    (op = .land ∨ op = .lor) ∨ op.isCompare = true ∨ (op = .shl ∨ op = .shr) ∨ BinOp.isArith op = true := by
+  cases op <;> simp [BinOp.isCompare, BinOp.isArith]
+
+/-- every binary operator of `Comp.BinaryExprUntyped` computes the specification's constant
+    (value, kind, and rejection), on well-formed literals -/
+theorem binop_refines (op : BinOp) (x y : Lit) (hx : x.wf = true) (hy : y.wf = true) :
+    (binaryExprUntyped op x y).map abs = binop op (abs x) (abs y) := by
+  rcases binop_cases op with h | h | h | h
+  · exact logical_refines op h x y hx hy
+  · exact compare_refines op h x y hx hy
+  · exact shift_refines op h x y hx hy
+  · exact arith_refines op h x y hx hy
+
+theorem resultKind_wf (xk yk : UKind) (v : CVal) : (⟨resultKind xk yk v, v⟩ : Lit).wf = true := by
+  cases v <;> simp [resultKind, makeKind, Lit.wf]
+  cases xk <;> cases yk <;> simp [isIntKind]
+
+/-- the representation invariant is established by every binary operator (whatever the operands) -/
+theorem binop_wf (op : BinOp) (x y z : Lit) (h : binaryExprUntyped op x y = some z) : z.wf = true := by
+  rcases binop_cases op with hop | hop | hop | hop
+  · rcases hop with rfl | rfl <;> simp only [binaryExprUntyped] at h <;> split at h <;> simp at h <;> subst h <;> rfl
+  · have : ∃ b, z = ⟨.bool, .bool b⟩ := by
+      cases op <;> simp [BinOp.isCompare] at hop <;> simp only [binaryExprUntyped] at h <;>
+      split at h <;>
+      first | (simp only [Option.map_eq_some_iff] at h; obtain ⟨b, _, rfl⟩ := h; exact ⟨b, rfl⟩) | (simp at h)
+    obtain ⟨b, rfl⟩ := this
+    rfl
+  · have hb : binaryExprUntyped op x y = shiftUntyped op x y := by rcases hop with rfl | rfl <;> rfl
+    rw [hb] at h
+    simp only [shiftUntyped] at h
+    split at h
+    · simp at h
+    · split at h
+      · split at h
+        · simp at h
+        · simp only [Option.map_eq_some_iff] at h
+          obtain ⟨v, _, rfl⟩ := h
+          by_cases hk : x.kind = .rune <;> simp [hk, Lit.wf]
+      · simp at h
+  · have : ∃ v, z = ⟨resultKind x.kind y.kind v, v⟩ := by
+      cases op <;> simp [BinOp.isArith] at hop <;> simp only [binaryExprUntyped] at h <;>
+      split at h <;>
+      first | (simp only [Option.map_eq_some_iff] at h; obtain ⟨v, _, rfl⟩ := h; exact ⟨v, rfl⟩) | (simp at h)
+    obtain ⟨v, rfl⟩ := this
+    exact resultKind_wf _ _ _
+
+theorem unop_refines (op : UnOp) (x : Lit) (hx : x.wf = true) :
+    (unaryExprUntyped op x).map abs = unop op (abs x) := by
+  rcases Lit.wf_cases hx with ⟨b, rfl⟩ | ⟨s, rfl⟩ | ⟨n, rfl⟩ | ⟨n, rfl⟩ | ⟨q, rfl⟩ | ⟨a, b, rfl⟩ <;>
+  cases op <;>
+  simp [unaryExprUntyped, cUnaryOp, unop, abs, nkind, NKind.isInt, Cx.ofInt, Cx.ofRat, Cx.neg]
+
+theorem unop_wf (op : UnOp) (x : Lit) (hx : x.wf = true) (z : Lit) (h : unaryExprUntyped op x = some z) :
+    z.wf = true := by
+  rcases Lit.wf_cases hx with ⟨b, rfl⟩ | ⟨s, rfl⟩ | ⟨n, rfl⟩ | ⟨n, rfl⟩ | ⟨q, rfl⟩ | ⟨a, b, rfl⟩ <;>
+  cases op <;> simp [unaryExprUntyped, cUnaryOp] at h <;> subst h <;> simp [Lit.wf]
+
+theorem realImag_refines (isReal : Bool) (x : Lit) (hx : x.wf = true) :
+    (realImagUntyped isReal x).map abs = (if isReal then realOf (abs x) else imagOf (abs x)) := by
+  rcases Lit.wf_cases hx with ⟨b, rfl⟩ | ⟨s, rfl⟩ | ⟨n, rfl⟩ | ⟨n, rfl⟩ | ⟨q, rfl⟩ | ⟨a, b, rfl⟩ <;>
+  cases isReal <;>
+  simp [realImagUntyped, cReal, cImag, cToFloat, realOf, imagOf, abs, nkind, Cx.ofInt, Cx.ofRat]
+
+theorem realImag_wf (isReal : Bool) (x z : Lit) (h : realImagUntyped isReal x = some z) : z.wf = true := by
+  simp only [realImagUntyped] at h
+  split at h
+  · simp at h
+  · simp only [Option.map_eq_some_iff] at h
+    obtain ⟨q, _, rfl⟩ := h
+    simp [Lit.wf]
+
+theorem complex_refines (x y : Lit) (hx : x.wf = true) (hy : y.wf = true) :
+    (complexUntyped x y).map abs = complexOf (abs x) (abs y) := by
+  rcases Lit.wf_cases hx with ⟨b, rfl⟩ | ⟨s, rfl⟩ | ⟨n, rfl⟩ | ⟨n, rfl⟩ | ⟨q, rfl⟩ | ⟨a, b, rfl⟩ <;>
+  rcases Lit.wf_cases hy with ⟨b', rfl⟩ | ⟨s', rfl⟩ | ⟨n', rfl⟩ | ⟨n', rfl⟩ | ⟨q', rfl⟩ | ⟨a', b', rfl⟩ <;>
+  simp [complexUntyped, complexArgOk, cImag, cBinaryOp, cmatch, complexOf, abs, nkind, Cx.ofInt, Cx.ofRat] <;>
+  (try (split <;> simp_all [abs, nkind])) <;>
+  (try (constructor <;> grind))
+
+theorem complex_wf (x y z : Lit) (hx : x.wf = true) (hy : y.wf = true) (h : complexUntyped x y = some z) : z.wf = true := by
+  rcases Lit.wf_cases hx with ⟨b, rfl⟩ | ⟨s, rfl⟩ | ⟨n, rfl⟩ | ⟨n, rfl⟩ | ⟨q, rfl⟩ | ⟨a, b, rfl⟩ <;>
+  rcases Lit.wf_cases hy with ⟨b', rfl⟩ | ⟨s', rfl⟩ | ⟨n', rfl⟩ | ⟨n', rfl⟩ | ⟨q', rfl⟩ | ⟨a', b', rfl⟩ <;>
+  simp [complexUntyped, complexArgOk, cImag, cBinaryOp, cmatch] at h <;>
+  (try (rcases h with ⟨_, rfl⟩)) <;> (try subst h) <;> (try simp [Lit.wf]) <;> (try (obtain ⟨_, rfl⟩ := h; simp [Lit.wf]))
+
 end Untyped
